@@ -4,7 +4,8 @@ Configuration alphabet: 7 drivers x 2-4 move tables (explicit and default operat
 {0,1,2,42,2^32-1,2^32,2^63,2^64-1, f(VERIF_SEED), the same values as numpy integer scalars} x
 states of the process {global generators untouched, reseeded differently before each of the two
 runs, consumed between the runs, the operations of the first simulation re-tuned in place before
-the second is built}.  Two simulations in one process, n = 5 steps, compared
+the second is built, criteria objects that already served another simulation at another
+temperature}; plus fresh interpreters differing only in PYTHONHASHSEED.  Two simulations in one process, n = 5 steps, compared
 bitwise after every step (positions, cell, numbers, move history) and in their log text; runs
 with different seeds must differ; a monitor traps draws from numpy's / Python's global generators
 made while a simulation is running.
@@ -40,6 +41,7 @@ CONFIGS = [
     ("Isobaric", dict(ens="Isobaric", atoms="A3", table=[["c", "C_default"], ["d", "D_default"]], max_cycles=2)),
     ("GrandCanonical", dict(ens="GrandCanonical", atoms="A3", table=[["e", "E_default"], ["d", "D_default"]], T=800.0, mu=-0.3, max_cycles=2)),
     ("HamiltonianCanonical", dict(ens="HamiltonianCanonical", atoms="A3", table=[["h", "H_default"]], calc="harmonic", max_cycles=1)),
+    ("HamiltonianCanonical", dict(ens="HamiltonianCanonical", atoms="A3", table=[["h", "H_forced"], ["d", "D_ball"]], calc="harmonic", max_cycles=2)),
     ("ForceBias", dict(ens="ForceBias")),
     ("AdaptiveForceBias", dict(ens="AdaptiveForceBias", scheme="forces")),
     ("AdaptiveForceBias", dict(ens="AdaptiveForceBias", scheme="energy")),
@@ -173,8 +175,29 @@ def retune(sim):
                 pass
 
 
-def trajectory(cfg, seed, monitor=None, after=None):
+def donor_criteria(cfg):
+    """Criteria objects that have already served another simulation (same table, another
+    temperature / pressure): the user shares one criteria instance between simulations."""
+    if cfg["ens"] in ("ForceBias", "AdaptiveForceBias"):
+        return None
+    other = dict(cfg)
+    other["T"] = 4.0 * cfg.get("T", 300.0)
+    if "P" in other or cfg["ens"] in ("Isobaric", "Isotension"):
+        other["P"] = 3.0 * cfg.get("P", 0.001)
+    sim, _atoms, _log = make(other, 12345)
+    for step in sim.irun(3):
+        for _ in step:
+            pass
+    crit = {name: st.criteria for name, st in sim.moves.items()}
+    sim.close()
+    return crit
+
+
+def trajectory(cfg, seed, monitor=None, after=None, criteria=None):
     sim, atoms, log = make(cfg, decode_seed(seed))
+    if criteria:
+        for name, st in sim.moves.items():
+            st.criteria = criteria[name]
     frames = []
     if monitor:
         monitor.armed = True
@@ -210,7 +233,9 @@ def task(arg):
     per_seed, plain = {}, {}
     with Monitor() as mon:
         for seed in seeds:
-            for gstate in ("untouched", "reseeded-differently", "consumed-between", "earlier-simulation-retuned"):
+            for gstate in ("untouched", "reseeded-differently", "consumed-between", "earlier-simulation-retuned", "criteria-objects-served-another-simulation"):
+                if gstate == "criteria-objects-served-another-simulation" and (seed not in seeds[:3] or cfg["ens"] in ("ForceBias", "AdaptiveForceBias")):
+                    continue
                 counters["evaluations"] += 1
                 if gstate == "reseeded-differently":
                     np.random.seed(1)
@@ -231,7 +256,7 @@ def task(arg):
                     np.random.random(7)
                     random.random()
                 try:
-                    b = trajectory(cfg, seed, mon)
+                    b = trajectory(cfg, seed, mon, criteria=donor_criteria(cfg) if gstate == "criteria-objects-served-another-simulation" else None)
                 except Exception as e:  # noqa: BLE001
                     mon.armed = False
                     V(f"C06/{name}/{skind}/exception:{type(e).__name__}", f"building or running the second simulation raised {type(e).__name__}: {e}; {where}"[:300])
@@ -261,6 +286,42 @@ def task(arg):
     return {"counters": counters, "violations": viol, "samples": [{"driver": name, "table": cfg.get("table", cfg.get("scheme")), "seeds": seeds, "steps": N}]}
 
 
+def worker_main():
+    """Fresh interpreter (its own PYTHONHASHSEED): print a digest of one trajectory."""
+    import json
+    import sys
+
+    ci, seed = int(sys.argv[1]), json.loads(sys.argv[2])
+    frames, text, _used = trajectory(CONFIGS[ci][1], seed)
+    print(json.dumps({"digest": digest((frames, text))}))
+
+
+def task_hashseed(arg):
+    """The same configuration and seed in fresh interpreters that differ only in Python's string
+    hash seed (set iteration order, dict-of-set order): trajectories and logs must be identical."""
+    import json
+    import os
+    import subprocess
+    import sys
+
+    ci, seed = arg["config"], arg["seed"]
+    name, cfg = CONFIGS[ci]
+    viol, out = [], {}
+    for h in arg["hashseeds"]:
+        env = dict(os.environ)
+        env["PYTHONHASHSEED"] = str(h)
+        env["PYTHONWARNINGS"] = "ignore"
+        p = subprocess.run([sys.executable, "-c", "from qv.checks.c06 import worker_main; worker_main()", str(ci), json.dumps(seed)], capture_output=True, text=True, env=env, timeout=600)
+        try:
+            out[h] = json.loads(p.stdout.strip().splitlines()[-1])["digest"]
+        except Exception:  # noqa: BLE001
+            viol.append({"signature": f"C06/{name}/fresh-interpreter/exception", "what": f"PYTHONHASHSEED={h}: exit {p.returncode}: {p.stderr[-300:]}", "replay": {"check": PID, "func": "task_hashseed", "arg": arg}})
+            return {"counters": {"evaluations": 1, "interpreters": len(out) + 1}, "violations": viol}
+    if len(set(out.values())) > 1:
+        viol.append({"signature": f"C06/{name}/trajectory-depends-on-python-hash-seed", "what": f"{name} table {cfg.get('table', cfg.get('scheme', ''))} seed {seed}: fresh interpreters with PYTHONHASHSEED in {arg['hashseeds']} give {len(set(out.values()))} different trajectories/logs", "replay": {"check": PID, "func": "task_hashseed", "arg": arg}})
+    return {"counters": {"evaluations": 1, "nontrivial": 1, "interpreters": len(out)}, "violations": viol}
+
+
 def run(tier, seed):
     rep = Report("exploration")
     acc = Acc()
@@ -270,11 +331,16 @@ def run(tier, seed):
     args = [{"config": i, "seeds": seeds} for i in range(len(CONFIGS))]
     for r in pmap(__name__, "task", args):
         acc.add(r)
+    hs = [1, 2, 3] if tier == "quick" else [1, 2, 3, 4, 5, 6, 7]
+    hargs = [{"config": i, "seed": 42, "hashseeds": hs} for i, (_n, c) in enumerate(CONFIGS) if len(c.get("table", [])) >= 2 or tier == "thorough"]
+    for r in pmap(__name__, "task_hashseed", hargs):
+        acc.add(r)
     rep.violations = acc.violations
     rep.coverage = {
         "evaluations": acc.n("evaluations"),
         "distinct_nontrivial": acc.n("nontrivial"),
         "rule": "one evaluation = one pair of runs (same configuration and seed, 5 steps, compared after every step) under one state of the global generators, or one pair of different seeds compared for distinctness; non-trivial = the global generators were perturbed between/before the two runs",
+        "fresh_interpreters_with_other_hash_seeds": acc.n("interpreters"),
         "drivers": sorted({c[0] for c in CONFIGS}),
         "configurations": len(CONFIGS),
         "seeds": seeds,
@@ -286,5 +352,5 @@ def run(tier, seed):
 
 
 def replay(data):
-    res = task(data["arg"])
+    res = (task_hashseed if data.get("func") == "task_hashseed" else task)(data["arg"])
     return {"signatures": sorted({v["signature"] for v in res["violations"]})}
